@@ -1209,6 +1209,9 @@ class Interp:
                     self.world.trace(obs.name).chunk(it.term)
                     self.world.events.append(("down", obs.name, "on_next*", it.term))
                     return
+                if isinstance(obs, Opaque) and obs.kind == "subject" and hasattr(self.world, "to_chunk"):
+                    self.world.to_chunk(self, obs, "on_next", it.term)
+                    return
         if isinstance(it, ListObj) and it.symbolic and it.elem.startswith("ref:") and hasattr(self.world, "broadcast"):
             # `for o in <symbolic list of objects>: o.m(args)` == one broadcast event over the whole list
             b = st.body
